@@ -28,7 +28,18 @@ Inductive hstep := HS (c : hcall) (o : obs) (first : Z) (in_force : option Z).
 Inductive case :=
 | Hist (oracle : list (str * str * option (list str)))     (* regexp key, name, FindStringSubmatch *)
        (authtbl : list (bool * str * Z * Z * bool))        (* publish, name, cred, ip, auth.Manager admitted *)
-       (init : list (str * Z)) (steps : list hstep).
+       (init : list (str * Z)) (steps : list hstep)
+(* End to end: a real protocol client (proto: 0 RTSP, 1 RTMP, 2 HLS, 3 WebRTC WHEP, 4 SRT) tried to publish / read on a
+   running Core. name: the path name the request designates as the protocol defines it (computed by the driver from
+   the bytes it put on the wire); cred / ip: index of the credentials the protocol carries and of the source address;
+   conf0: id of the configuration serving the name (None: invalid name / not configured); reload: Some c = the
+   configuration was reloaded between authorization and attachment (publisher flows), c serving the name afterwards
+   (same id <-> reflect.DeepEqual); has_stream: a publisher of the driver's own sits on the name;
+   admitted / attached: the path manager's listing shows the client's session as source / reader of a path, and of
+   which; oracle_req / oracle_att: auth.Manager.Authenticate asked directly for (action, name / attached, cred, ip). *)
+| E2E (proto : Z) (publish : bool) (name : str) (cred ip : Z)
+      (conf0 : option Z) (reload : option (option Z)) (has_stream : bool)
+      (admitted : bool) (attached : str) (oracle_req oracle_att : bool).
 
 Fixpoint oracle_get (o : list (str * str * option (list str))) (k n : str) : option (list str) :=
   match o with
@@ -86,9 +97,32 @@ Fixpoint steps_match m auth (cs : confs) (steps : list hstep) : bool :=
       && steps_match m auth cs' rest
   end.
 
+(* End to end, model side: the flow the servers build (publishers of RTSP / RTMP / WebRTC / SRT: FindPathConf, then
+   AddPublisher with SkipAuth and ConfToCompare; every reader: one authenticated AddReader), run on the model with the
+   name's configuration as a static entry and the oracle's verdict for the requested name. The path itself may still
+   refuse a reader (no stream). *)
+Definition e2e_confs (n : str) (c : option Z) : confs := match c with Some c => [(n, c)] | None => [] end.
+
+Definition e2e_flow (publish : bool) : flow :=
+  if publish then FTwoStep KPublisher true true true true else FSingle KReader false false.
+
+Definition has_attached (evs : list (event Z Z)) : bool :=
+  existsb (fun e => match e with Attached _ _ => true | _ => false end) evs.
+
+Definition e2e_model (publish : bool) (n : str) (cr ip : Z) (conf0 : option Z) (reload : option (option Z))
+           (oracle_req : bool) : bool :=
+  has_attached
+    (flow_events (fun _ _ => None)
+                 (fun p n' c i => Bool.eqb p publish && str_eqb n' n && (c =? cr) && (i =? ip) && oracle_req)
+                 (e2e_flow publish) (ENV n n cr cr ip ip None) (e2e_confs n conf0)
+                 (match reload with Some c1 => [e2e_confs n c1] | None => [] end)).
+
 Definition mismatch (c : case) : bool :=
   match c with
   | Hist o t init steps => negb (steps_match (oracle_get o) (auth_get t) init steps)
+  | E2E _ publish n cr ip conf0 reload has_stream admitted _ oreq _ =>
+      let m := e2e_model publish n cr ip conf0 reload oreq in
+      if admitted then negb m else m && (publish || has_stream)
   end.
 
 (* ---- the property on the observed outcomes alone (no model function) ---- *)
@@ -121,4 +155,35 @@ Definition step_ok (t : list (bool * str * Z * Z * bool)) (all : list hstep) (s 
 Definition spec_fail (c : case) : bool :=
   match c with
   | Hist _ t _ steps => negb (forallb (step_ok t steps) steps)
+  | E2E _ _ n _ _ conf0 reload _ admitted attached _ oatt =>
+      (* a client that became source / reader of a path: the authentication manager admits its credentials and address
+         for the action on that very path, that path is the one the request named, and (publisher flows) the
+         configuration serving it is still the one it was authorized under. A refusal is never a violation. *)
+      admitted
+      && negb (oatt && str_eqb attached n
+               && match reload with Some c1 => opt_eqb conf0 c1 | None => true end)
   end.
+
+(* the end-to-end judgement is not vacuous: an admission the oracle does not back, an attachment to another path and an
+   attachment across a configuration change fail; the plain admitted case and every refusal pass *)
+Example e2e_spec_examples :
+  let n := [112; 49] in let n2 := [112; 50] in
+  (spec_fail (E2E 0 true n 3 0 (Some 1) None false true n true true),
+   spec_fail (E2E 0 true n 3 0 (Some 1) None false true n true false),
+   spec_fail (E2E 0 true n 3 0 (Some 1) None false true n2 true true),
+   spec_fail (E2E 1 true n 1 0 (Some 1) (Some (Some 2)) false true n true true),
+   spec_fail (E2E 1 true n 1 0 (Some 1) (Some (Some 1)) false true n true true),
+   spec_fail (E2E 4 false n 0 0 (Some 1) None true false [] true false))
+  = (false, true, true, true, false, false).
+Proof. vm_compute. reflexivity. Qed.
+
+Example e2e_model_examples :
+  let n := [112; 49] in
+  (mismatch (E2E 0 true n 3 0 (Some 1) None false true n true true),
+   mismatch (E2E 0 true n 3 0 (Some 1) None false false [] true false),
+   mismatch (E2E 1 true n 1 0 (Some 1) (Some (Some 2)) false false [] true false),
+   mismatch (E2E 1 true n 1 0 (Some 1) (Some (Some 2)) false true n true true),
+   mismatch (E2E 2 false n 2 0 (Some 1) None false false [] true false),
+   mismatch (E2E 2 false n 2 0 None None true true n true true))
+  = (false, true, false, true, false, true).
+Proof. vm_compute. reflexivity. Qed.
